@@ -63,6 +63,27 @@ def real_mutation(step):
     raise ValueError(k)
 
 
+def expected_names(psig0, seq):
+    """App label -> set of model names after each step, by what the mutations NAME (independent of
+    how the code looks its targets up)."""
+    cur = {a: set(ms or {}) for a, ms in psig0.items()}
+    out = []
+    for st in seq:
+        k, a = st['k'], st['app']
+        cur = {x: set(v) for x, v in cur.items()}
+        if k == 'RenM':
+            cur[a].discard(st['m'])
+            cur[a].add(st['n'])
+        elif k == 'RenApp':
+            cur[st['n']] = cur.pop(a)
+        elif k == 'DelM':
+            cur[a].discard(st['m'])
+        elif k == 'DelApp':
+            cur.pop(a, None)
+        out.append({x: sorted(v) for x, v in cur.items()})
+    return out
+
+
 def walk(ps, deleted):
     """Every relation of the real signature that names a model which does not
     exist (and was not explicitly deleted)."""
@@ -138,5 +159,6 @@ def replay(rec):
                                     database='default')
         except Exception as e:
             return {'error': '%s: %s' % (type(e).__name__, e), 'at': step, 'steps': steps}
-        steps.append({'step': step, 'dangling': walk(ps, deleted)})
+        names_now = {a: sorted(ms) for a, ms in project(ps).items()}
+        steps.append({'step': step, 'dangling': walk(ps, deleted), 'names': names_now})
     return {'steps': steps, 'final': project(ps)}
